@@ -1187,6 +1187,9 @@ func (c *DefaultCtx) Path(override ...string) string {
 
 		// Set new path to request context
 		c.fasthttp.Request.URI().SetPath(c.pathOriginal)
+		// The old path is not overwritten in place: the parameter values of the current route, and
+		// (without Immutable) every string Params and Path handed out, are views of that buffer
+		c.path = make([]byte, 0, len(c.pathOriginal))
 		// Prettify path
 		c.configDependentPaths()
 		// The new path may select another part of the route tree
